@@ -10,11 +10,11 @@ import (
 )
 
 type tOutcome struct {
-	errA, errB   int
-	idsA, idsB   []string
-	attA, attB   []int
-	countB       int
-	rows         []mSnap
+	errA, errB int
+	idsA, idsB []string
+	attA, attB []int
+	countB     int
+	rows       []mSnap
 }
 
 func tCloneDB(src *vsql.DB) *vsql.DB {
@@ -42,7 +42,7 @@ func tErr(err error) int {
 }
 
 // verif:harness props=C03,C04 tprops=C02,C12 tier=quick weight=300
-// verif:bounds two CONCURRENT store operations on one SQLiteStore over the SQL model (single pooled connection, modelled as a blocking resource; interleaved at every mutex and connection acquisition): thread A = Dequeue(batch 1; thorough 1|2), thread B = one of Dequeue(batch 1|2), Ack, Cancel by id (thorough adds Nack, MarkDead, Extend, Requeue by id, Enqueue); N=2 rows in state queued/leased (thorough: any state) with arbitrary timestamps; the outcome (both results and the final table, generated lease ids aside) must equal the outcome of running the two operations one after the other in one of the two orders on the same initial table
+// verif:bounds two CONCURRENT store operations on one SQLiteStore over the SQL model (single pooled connection, modelled as a blocking resource; interleaved at every mutex and connection acquisition): thread A = Dequeue(batch 1), thread B = one of Dequeue(batch 1|2), Ack, Cancel by id (thorough adds Nack, MarkDead, Extend, Requeue by id, Enqueue); N=2 rows in state queued/leased (thorough: also canceled) with arbitrary timestamps; the outcome (both results and the final table, generated lease ids aside) must equal the outcome of running the two operations one after the other in one of the two orders on the same initial table
 func VerifC03SQLConcurrentOps() {
 	vrt.SQLModel()
 	n := 2
@@ -50,7 +50,7 @@ func VerifC03SQLConcurrentOps() {
 	vrt.Assume(now.UnixNano() > int64(time.Hour))
 	states := []State{StateQueued, StateLeased}
 	if vrt.Thorough() {
-		states = mStates
+		states = []State{StateQueued, StateLeased, StateCanceled}
 	}
 	init := &vsql.DB{}
 	for i := 0; i < n; i++ {
@@ -81,9 +81,6 @@ func VerifC03SQLConcurrentOps() {
 		init.Rows = append(init.Rows, row)
 	}
 	bA := 1
-	if vrt.Thorough() {
-		bA = 1 + vrt.Choose("A-batch", 2)
-	}
 	nOps := 3
 	if vrt.Thorough() {
 		nOps = 8
